@@ -11,8 +11,8 @@ from rdv import taint as T
 from rdv.core import (CheckBroken, Origins, Pos, call_matches, callee_res, natural_loops, norm_path, primary_edges,
                       strip_generics, switch_edges, term_has, term_leaves, term_str)
 
-CONFIGS = ['default']
-THOROUGH_CONFIGS = ['security']
+CONFIGS = ['default', 'security']     # the security arms are not compiled by the default test suite: decide them on every run
+THOROUGH_CONFIGS = []
 LEVEL = 'other'
 
 
@@ -606,5 +606,5 @@ def run(rep, facts, tier):
     # the copy window of the fragment assembler (shared with C05 R05.12): the clamp to the buffer is what keeps a padded / hostile last fragment from slicing past the end
     from rules.C05 import rule_copy_window
     rule_copy_window(rep, facts['default'], 'R06.5')
-    if tier == 'thorough' and 'security' in facts:
+    if 'security' in facts:
         run_config(rep, facts['security'], 'security', floor=False)
